@@ -1,13 +1,13 @@
 SPECIFICATION MSpec
 CONSTANTS
   StdQuirks = FALSE
-  Kinds = {"flate", "gzip", "zlib"}
+  Kinds = {"flate", "gzip", "zlib", "gzip-unencodable-header"}
   Sizes = {0, 2}
   MaxLen = 5
   MaxResets = 2
   Faults = TRUE
   OpSet = {"Write", "Flush", "Close", "Reset"}
 VIEW View
-INVARIANTS TypeOK Answerable C01_RoundTrip C10_FlushPoint C14_Reported C16_CloseIdem C16_FinalStays
+INVARIANTS TypeOK Answerable C01_RoundTrip C10_FlushPoint C14_Reported C16_CloseIdem C16_FinalStays C16_HeaderError
 PROPERTIES C01_Monotone C16_Absorbing C12_ResetFresh
 CHECK_DEADLOCK FALSE
